@@ -1,5 +1,5 @@
 INIT Init
 NEXT Next
 CONSTANTS Thorough = FALSE
-INVARIANTS SizeSane Emit
+INVARIANTS SizeSane CodecOk Emit
 CHECK_DEADLOCK FALSE
